@@ -221,8 +221,18 @@ def inline_into(fn, callee_of, eligible, depth=0):
         retb = {"id": ret_id, "cleanup": False, "inl": True, "inl_depth": b.get("inl_depth", 0), "inl_from": g.name,
                 "stmts": [{"lhs": t["dest"], "rhs": {"rv": "use", "ops": [{"k": "move", "pl": {"l": lo, "p": []}}]}, "sp": sp}],
                 "term": {"t": "goto", "succ": [t["succ"][0]], "sp": sp}}
-        for k, a in enumerate(t["args"]):
-            b["stmts"].append({"lhs": {"l": lo + 1 + k, "p": []}, "rhs": {"rv": "use", "ops": [a]}, "sp": sp})
+        if getattr(g, "closure_call", False):
+            # `f(x, y)` on a local closure: MIR passes (&closure, (x, y)); the closure body takes the environment and then each argument on its own
+            b["stmts"].append({"lhs": {"l": lo + 1, "p": []}, "rhs": {"rv": "use", "ops": [t["args"][0]]}, "sp": sp})
+            tup = t["args"][1] if len(t["args"]) > 1 else None
+            for k in range(g.argc - 1):
+                if tup is None or not tup.get("pl"):
+                    break
+                o = {"k": "copy", "pl": {"l": tup["pl"]["l"], "p": list(tup["pl"]["p"]) + [{"f": k, "n": None}]}}
+                b["stmts"].append({"lhs": {"l": lo + 2 + k, "p": []}, "rhs": {"rv": "use", "ops": [o]}, "sp": sp})
+        else:
+            for k, a in enumerate(t["args"]):
+                b["stmts"].append({"lhs": {"l": lo + 1 + k, "p": []}, "rhs": {"rv": "use", "ops": [a]}, "sp": sp})
         b["term"] = {"t": "goto", "succ": [bo], "sp": sp, "inlined_call": g.name}
         fn.blocks.extend(new)
         fn.blocks.append(retb)
@@ -265,6 +275,10 @@ def run(prog, ws=("msi", "msi_ffi")):
                     if h is g:
                         r = True
                         break
+                    if h.name in known:
+                        # a cycle that passes through a known (never inlined) function ends there: the helper's body, inlined into that
+                        # function, calls it back as an ordinary call
+                        continue
                     if h.id not in seen:
                         seen.add(h.id)
                         st.append(h)
@@ -275,7 +289,9 @@ def run(prog, ws=("msi", "msi_ffi")):
     pristine = {}
     targets = [f for f in prog.fns.values() if f.crate in ws]
     helpers = [f for f in targets if eligible(f)]
-    if not helpers:
+    direct = any(re.search(r"ops::(Fn::call|FnMut::call_mut|FnOnce::call_once)$", t.get("callee") or "") and (prog.callee_fn(t) is not None and prog.callee_fn(t).kind == "Closure")
+                 for f in targets for _, t in f.calls())
+    if not helpers and not direct:
         return report
     for f in targets:
         pristine[f.id] = (copy.deepcopy(f.blocks), list(f.locals), list(f.vars), list(f.closures))
@@ -283,16 +299,36 @@ def run(prog, ws=("msi", "msi_ffi")):
     class View:
         pass
 
-    def pristine_view(g):
+    def pristine_view(g, closure_call=False):
         v = View()
         v.blocks, v.locals, v.vars, v.closures = pristine[g.id]
         v.name = g.name
+        v.argc = g.argc
+        v.closure_call = closure_call
         return v
+
+    called_closures = set()
+
+    def callee_view(t):
+        g = prog.callee_fn(t)
+        if g is None or g.id not in pristine:
+            return None
+        if eligible(g):
+            return pristine_view(g)
+        # a local closure invoked directly (`let key_of = |row| ..; key_of(r)`): its body belongs to the function that calls it
+        if g.kind == "Closure" and g.crate in ws and re.search(r"ops::(Fn::call|FnMut::call_mut|FnOnce::call_once)$", t.get("callee") or "") and \
+                len(t["args"]) == 2 and not any(cname_self(tt) == g.name for _, tt in g.calls()):
+            called_closures.add(g.id)
+            return pristine_view(g, closure_call=True)
+        return None
+
+    def cname_self(tt):
+        h = prog.callee_fn(tt)
+        return h.name if h is not None else None
 
     # iterate: inline_into handles nesting by re-scanning appended blocks (depth-bounded)
     for f in targets:
-        n = inline_into(f, lambda t: (lambda g: pristine_view(g) if g is not None and g.id in pristine and eligible(g) else None)(prog.callee_fn(t)),
-                        lambda v: True)
+        n = inline_into(f, callee_view, lambda v: True)
         if n:
             report[f.name] = sorted({b.get("inl_from") for b in f.blocks if b.get("inl_from")})
     prog.raw = pristine
@@ -311,9 +347,12 @@ def run(prog, ws=("msi", "msi_ffi")):
                     if o.get("k") == "const" and o.get("fnid") in prog.fns:
                         still.add(o["fnid"])
     prog.removed_helpers = []
-    for h in helpers:
+    for h in helpers + [prog.fns[i] for i in called_closures if i in prog.fns]:
         if h.id not in still:
             prog.removed_helpers.append(h.name)
             del prog.fns[h.id]
             prog.by_name.pop(h.name, None)
+    for f in prog.fns.values():
+        if any(c.id not in prog.fns for c in f.closures):
+            f.closures = [c for c in f.closures if c.id in prog.fns]
     return report
